@@ -27,6 +27,69 @@ static Vector vec3(Args& a)
 	return Vector(std::vector<double> {x, y, z});
 }
 
+// The axis (x,y,z) as an OBJECT produced by a short history (kind), with extra entries used as hidden tail / junk.
+// Every history ends in a Vector of Size() 3 with the components (x,y,z); the results must not depend on the history.
+static Vector axis_with_history(int kind, double x, double y, double z, const std::vector<double>& ex)
+{
+	std::vector<double> xyz {x, y, z};
+	std::vector<double> longer(xyz);
+	longer.insert(longer.end(), ex.begin(), ex.end());
+	Vector shrunk(longer);
+	shrunk.Resize(3);
+	switch(kind)
+	{
+		case 0:
+			return Vector(xyz);
+		case 1:
+			return shrunk;
+		case 2:
+		{
+			Vector v(longer);
+			v.Resize(2);
+			v.Resize(3);
+			v[2] = z;
+			return v;
+		}
+		case 3:
+		{
+			Vector v(ex);
+			v.Assign(3, 0.0);
+			v[0] = x;
+			v[1] = y;
+			v[2] = z;
+			return v;
+		}
+		case 4:
+		{
+			Vector w(ex);
+			w = shrunk;
+			return w;
+		}
+		case 5:
+		{
+			Vector t(shrunk);
+			return t;
+		}
+		case 6:
+		{
+			std::vector<double> big(ex);
+			big.insert(big.end(), xyz.begin(), xyz.end());
+			big.insert(big.end(), ex.begin(), ex.end());
+			std::vector<double> slice(big.begin() + ex.size(), big.begin() + ex.size() + 3);
+			return Vector(slice);
+		}
+		case 7:
+		{
+			Vector v(std::vector<double> {x, y});
+			v.Resize(3);
+			v[2] = z;
+			return v;
+		}
+		default:
+			return shrunk * 1.0;
+	}
+}
+
 std::string handle(const std::string& op, Args& a)
 {
 	if(op == "c16.rot2")
@@ -78,6 +141,41 @@ std::string handle(const std::string& op, Args& a)
 			if(M.Rows() != M.Columns())
 				o << "shape";
 			out_matrix(o, M);
+		});
+	}
+	if(op == "c16.rot3h")
+	{
+		double alpha = a.dbl();
+		a.tok();
+		a.tok();
+		double x = a.dbl(), y = a.dbl(), z = a.dbl();
+		int kind = (int) a.i64();
+		auto ex	 = a.dbls();
+		a.end();
+		return run_forked([&](Out& o) {
+			Vector ax = axis_with_history(kind, x, y, z, ex);
+			if(ax.Size() != 3 || !(ax[0] == x && ax[1] == y && ax[2] == z))
+				o << "history";
+			Matrix M = Rotation_Matrix(alpha, 3, ax);
+			if(M.Rows() != 3 || M.Columns() != 3)
+				o << "shape";
+			out_matrix(o, M);
+		});
+	}
+	if(op == "c16.sphaxh")
+	{
+		double r = a.dbl(), th = a.dbl(), ph = a.dbl();
+		for(int i = 0; i < 4; i++)
+			a.tok();
+		double x = a.dbl(), y = a.dbl(), z = a.dbl();
+		int kind = (int) a.i64();
+		auto ex	 = a.dbls();
+		a.end();
+		return run_forked([&](Out& o) {
+			Vector ax = axis_with_history(kind, x, y, z, ex);
+			if(ax.Size() != 3 || !(ax[0] == x && ax[1] == y && ax[2] == z))
+				o << "history";
+			out_vector(o, Spherical_Coordinates(r, th, ph, ax));
 		});
 	}
 	if(op == "c16.sph")
